@@ -1353,3 +1353,196 @@ func ruleCommaFixed(c *Ctx, r *Report) {
 	}
 	r.analysed(rule, fname(fn))
 }
+
+// ---------------------------------------------------------------------------
+// R-OPS-CLASS-LOCAL (C18; added after seed C18d): a name may be an operator in up to three classes (prefix,
+// infix, postfix), one table entry holding the three slots. op/3 changes the slot of the class of the given
+// specifier and nothing else. Removing the WHOLE entry (delete on the operator table) is therefore done only
+// under the fact that every slot of the entry is empty - a comparison of the entry with the zero entry.
+// `op(0, fy, -)` deleting the entry for - takes the infix minus with it.
+
+func ruleOpsClassLocal(c *Ctx, r *Report) {
+	const rule = "R-OPS-CLASS-LOCAL"
+	desc := "a whole entry of the operator table is deleted only when all its class slots are empty"
+	isOps := func(t types.Type) bool { return isEngNamed(t, "operators") && !isPtr(t) }
+	n := 0
+	for _, fn := range c.LibFuncs() {
+		if funcPkg(fn) != c.Engine {
+			continue
+		}
+		seen := 0
+		eachInstr(fn, func(in ssa.Instruction) {
+			ci, ok := in.(ssa.CallInstruction)
+			if !ok {
+				return
+			}
+			b, ok := ci.Common().Value.(*ssa.Builtin)
+			if !ok || b.Name() != "delete" || len(ci.Common().Args) < 2 || !isOps(ci.Common().Args[0].Type()) {
+				return
+			}
+			n++
+			seen++
+			key := fmt.Sprintf("%s/delete#%d", fname(fn), seen)
+			allEmpty := false
+			for f := range c.factsAt(in.Block()) {
+				bo, ok := f.cond.(*ssa.BinOp)
+				if !ok || (bo.Op != token.EQL && bo.Op != token.NEQ) || (bo.Op == token.EQL) != f.pol {
+					continue
+				}
+				// a comparison of two values of the entry type ([N]operator)
+				if arr, ok := bo.X.Type().Underlying().(*types.Array); ok && isEngNamed(arr.Elem(), "operator") {
+					allEmpty = true
+				}
+			}
+			if allEmpty {
+				r.ok(rule, key, c.at(in), desc, "under the fact entry == zero entry", true)
+			} else {
+				r.bad(rule, fmt.Sprintf("%s/delete", fname(fn)), c.at(in), desc, "the entry is deleted without knowing that its other class slots are empty: removing a prefix operator removes the infix operator of the same name too")
+			}
+		})
+	}
+	if n == 0 {
+		r.info(rule, "scan/deletes", "-", desc, "no delete on the operator table (slots are emptied in place)")
+	}
+	r.analysed(rule, fmt.Sprintf("%d deletes on the operator table", n))
+}
+
+// ---------------------------------------------------------------------------
+// R-DISCONTIGUOUS-INDEP (C20; added after seed C20d): the clauses of a predicate are consecutive in a text
+// unless the predicate is declared discontiguous/1 - for dynamic predicates as well. In the loader's flush
+// the branch that raises the discontiguity error does not depend on the predicate's `dynamic` attribute.
+
+func ruleDiscontiguousIndep(c *Ctx, r *Report) {
+	const rule = "R-DISCONTIGUOUS-INDEP"
+	flush := c.method("text", "flush")
+	if flush == nil {
+		r.undecided(rule, "anchor:text.flush", "-", "locate text.flush", "not found")
+		return
+	}
+	desc := "the discontiguity check does not depend on whether the predicate is dynamic"
+	// the error return: a Return whose error result is a MakeInterface of *discontiguousError
+	var errRet ssa.Instruction
+	eachInstr(flush, func(in ssa.Instruction) {
+		ret, ok := in.(*ssa.Return)
+		if !ok || len(ret.Results) != 1 {
+			return
+		}
+		for _, l := range c.originSet(ret.Results[0]) {
+			if strings.Contains(l.Type().String(), "discontiguousError") {
+				errRet = in
+			}
+		}
+	})
+	key := fname(flush) + "/discontiguity-check"
+	if errRet == nil {
+		r.bad(rule, key, c.Pos(flush.Pos()), desc, "flush never raises the discontiguity error")
+		return
+	}
+	var dep ssa.Value
+	for f := range c.factsAt(errRet.Block()) {
+		dataSlice(f.cond, func(v ssa.Value) bool {
+			if ld, ok := v.(*ssa.UnOp); ok && ld.Op == token.MUL {
+				if fa, ok := ld.X.(*ssa.FieldAddr); ok && fieldName(fa) == "dynamic" {
+					dep = v
+				}
+			}
+			return true
+		})
+	}
+	// also conditions evaluated in the && chain leading to the error block
+	for _, b := range flush.Blocks {
+		if cnd := ifCond(b); cnd != nil && reachableFromAvoiding(b, errRet.Block(), nil) && b.Dominates(errRet.Block()) {
+			dataSlice(cnd, func(v ssa.Value) bool {
+				if ld, ok := v.(*ssa.UnOp); ok && ld.Op == token.MUL {
+					if fa, ok := ld.X.(*ssa.FieldAddr); ok && fieldName(fa) == "dynamic" {
+						dep = v
+					}
+				}
+				return true
+			})
+		}
+	}
+	if dep == nil {
+		r.ok(rule, key, c.at(errRet), desc, "no branch leading to the error reads the dynamic attribute", true)
+	} else {
+		r.bad(rule, key, c.at(errRet), desc, "a branch leading to the discontiguity error reads the dynamic attribute: separated runs of a dynamic predicate load silently and replace the earlier definition")
+	}
+	r.analysed(rule, fname(flush))
+}
+
+// ---------------------------------------------------------------------------
+// R-PARTIAL-COUNT-EMIT (C10; added after seed C10d): for a partial list in a clause head the compiler emits
+// "get a partial list of N elements" followed by the N elements. N is counted by one iteration and the
+// elements are emitted by another: both must range over the same value (the proper-list spine of the prefix).
+// Counting over the partial list itself also counts the cells of a tail that is bound at compile time: the
+// compiled head then stands for a longer list than the stored term.
+
+func rulePartialCountEmit(c *Ctx, r *Report) {
+	const rule = "R-PARTIAL-COUNT-EMIT"
+	desc := "the count and the emission of a partial list's prefix iterate over the same value"
+	n := 0
+	for _, name := range []string{"compileHeadArg", "compileBodyArg"} {
+		fn := c.method("clause", name)
+		if fn == nil {
+			r.undecided(rule, "anchor:"+name, "-", "locate clause."+name, "not found")
+			continue
+		}
+		// stores into the List field of ListIterator values built in this function
+		var lists [][]ssa.Value
+		var at []ssa.Instruction
+		eachInstr(fn, func(in ssa.Instruction) {
+			st, ok := in.(*ssa.Store)
+			if !ok {
+				return
+			}
+			fa, ok := st.Addr.(*ssa.FieldAddr)
+			if !ok || fieldName(fa) != "List" || !isEngNamed(deref(fa.X.Type()), "ListIterator") {
+				return
+			}
+			lists = append(lists, c.originSet(st.Val))
+			at = append(at, in)
+		})
+		if len(lists) < 2 {
+			continue
+		}
+		n++
+		key := fname(fn) + "/iterators"
+		same := true
+		for i := 1; i < len(lists); i++ {
+			if !sameLeafSetByName(lists[0], lists[i]) {
+				same = false
+			}
+		}
+		if same {
+			r.ok(rule, key, c.at(at[0]), desc, fmt.Sprintf("%d iterators over the same value", len(lists)), true)
+		} else {
+			r.bad(rule, key, c.at(at[len(at)-1]), desc, "the iterators range over different values: the element count and the emitted elements can disagree (a tail bound at compile time is counted as part of the prefix)")
+		}
+	}
+	if n == 0 {
+		r.info(rule, "scan/iterators", "-", desc, "no function counts and emits with two iterators")
+	}
+	r.analysed(rule, fmt.Sprintf("%d functions with a counting and an emitting iterator", n))
+}
+
+// sameLeafSetByName: the two origin sets denote the same values (identical SSA values, or loads of the same
+// field of the same base).
+func sameLeafSetByName(a, b []ssa.Value) bool {
+	if len(a) != len(b) || len(a) == 0 {
+		return false
+	}
+	name := func(v ssa.Value) string { return valName(v) + ":" + v.Type().String() }
+	m := map[string]int{}
+	for _, x := range a {
+		m[name(x)]++
+	}
+	for _, y := range b {
+		m[name(y)]--
+	}
+	for _, k := range m {
+		if k != 0 {
+			return false
+		}
+	}
+	return true
+}
